@@ -16,7 +16,11 @@ def    := S <style> <pfx> <n> field*n  |  E <style> <pfx> <tag> <vident> <ostr v
 style  := n | p | s | k            pfx := ~ | i<hex> | x<hex>
 tag    := ~ | i<0|1 sample_group><hex> | x<0|1><hex>        ostr := ~ | =<hex>
 field  := P <ident> <ostr name> <ostr unit> <0|1 sample_group> fval | G | T
-        | F <pfx> <0|1 present> <0|1 optional> def
+        | F <pfx> <0|1 present> <wrap> def
+wrap   := - | letters, outermost first: how the field holds the child, hence which forwarding impls of
+          metrique-core the closed child is written through: o `Option<_>`→Option; r `&`; b `Box`; a `Arc`;
+          c,w `Cow`; f `ForceFlag`; d `WithDimensions`; m `Mutex<_>`→Option; n `Arc` (no_close);
+          s `Arc<Child>` (closes to the bare child: no forwarding impl). Legacy: 0 = -, 1 = o.
         | R <n> (<name> <m|s> <value> <unit>)*n <k> (<name> <value>)*k
 fval   := A | N<u|z|b|f|d> <nat> | Q <hex> | V <style> <ident> <ostr name> | W <ostr unit> fval | O fval
 ```
@@ -127,6 +131,22 @@ def parseFVal : Nat → Toks → Option (FVal × Toks)
     else none
   | _, [] => none
 
+def wrapOf (c : Char) : Option (List Wrapper) :=
+  if c == 'o' ∨ c == 'm' then some [.option]
+  else if c == 'r' then some [.ref]
+  else if c == 'b' then some [.box]
+  else if c == 'a' ∨ c == 'n' then some [.arc]
+  else if c == 'c' ∨ c == 'w' then some [.cow]
+  else if c == 'f' then some [.forceFlag]
+  else if c == 'd' then some [.withDims]
+  else if c == 's' then some []
+  else none
+
+def parseWrap (s : String) : Option (List Wrapper) :=
+  if s == "-" ∨ s == "0" then some []
+  else if s == "1" then some [.option]
+  else (s.toList.mapM wrapOf).map List.flatten
+
 def parseKind (s : String) : Option Kind :=
   if s == "m" then some .metric else if s == "s" then some .string else none
 
@@ -205,9 +225,9 @@ def parseField : Nat → Toks → Option (Field × Toks)
       | p :: pr :: opt :: ts => do
         let p ← parsePfx p
         let pr ← parseBool pr
-        let _ ← parseBool opt
+        let ws ← parseWrap opt
         let (d, ts) ← parseDef fuel ts
-        pure (.flatten p pr d, ts)
+        pure (.flatten p pr (ws.foldr Def.wrap d), ts)
       | _ => none
     else if t == "R" then
       match ts with
@@ -236,7 +256,7 @@ def renderPairs (ps : List Pair) : String :=
   " ".intercalate (ps.map fun (n, v) => s!"{hex n}={hex v}")
 
 def cfg : Cfg :=
-  ⟨Inflector.infl, ⟨Generated.Naming.haveValLimit, Generated.Naming.matchLimit⟩⟩
+  { infl := Inflector.infl, limits := ⟨Generated.Naming.haveValLimit, Generated.Naming.matchLimit⟩ }
 
 def handleDef (ts : Toks) : String :=
   match parseDef (2 * ts.length + 4) ts with
